@@ -1,5 +1,11 @@
 //! Native replay helpers: scripted RNG (chosen words first, then a seeded xorshift stream) and small utilities.
 use rand::rand_core::{Infallible, TryRng};
+pub use rand_distr as rd;
+/// contract predicates shared with the Kani overlay (copied from kx/spec.rs at build time)
+pub mod spec;
+/// generated constructor dispatcher (kx/kunits.py)
+pub mod gen_ctor;
+pub mod samplers;
 
 /// RNG that hands out the scripted words first and a seeded PRNG stream afterwards
 /// (a constant tail would make rejection samplers spin forever).
